@@ -142,8 +142,8 @@ func readHeader(reader io.ReaderAt) (*bucketToOffset, *indexmeta.Meta, int64, er
 		return nil, nil, 0, fmt.Errorf("failed to read header size: %w", err)
 	}
 	// read header bytes:
-	headerBuf := make([]byte, headerSize)
-	if _, err := reader.ReadAt(headerBuf, 4); err != nil {
+	headerBuf, err := readBytesAt(reader, 4, headerSize)
+	if err != nil {
 		return nil, nil, 0, fmt.Errorf("failed to read header bytes: %w", err)
 	}
 	// decode header:
@@ -196,6 +196,42 @@ func readHeader(reader io.ReaderAt) (*bucketToOffset, *indexmeta.Meta, int64, er
 		prefixToOffset[prefixToUint16(prefix)] = offset
 	}
 	return &prefixToOffset, &meta, headerSize + 4, err
+}
+
+// readBytesAt reads `total` bytes of the reader starting at `off`.
+//
+// `total` comes from a length field of the file. The buffer therefore starts small and is
+// doubled only after everything read so far was actually delivered by the reader, so that a
+// corrupt length field cannot make the reader allocate more than about twice the bytes the
+// file holds (instead of up to 4 GiB up front).
+func readBytesAt(reader io.ReaderAt, off int64, total int64) ([]byte, error) {
+	const firstChunk = 1 << 20
+	size := total
+	if size > firstChunk {
+		size = firstChunk
+	}
+	buf := make([]byte, size)
+	filled := 0
+	for {
+		n, err := reader.ReadAt(buf[filled:], off+int64(filled))
+		filled += n
+		if filled < len(buf) {
+			if err == nil {
+				err = io.ErrUnexpectedEOF
+			}
+			return nil, err
+		}
+		if int64(filled) == total {
+			return buf, nil
+		}
+		size = 2 * int64(len(buf))
+		if size > total {
+			size = total
+		}
+		grown := make([]byte, size)
+		copy(grown, buf)
+		buf = grown
+	}
 }
 
 func (r *Reader) Has(sig [64]byte) (bool, error) {
